@@ -1,6 +1,7 @@
 """C07 - binary round trip (clauses: TABLE header, section order, COVER field coverage, GUARD casts, TAINT str truncation, endianness)"""
 import re
 from engines import MutSummary, RefDeriv, endian_sites, positive_edges, user_root_locals, kinds_in_type, kind_of_callee
+from engines import check_complete_iteration
 from prov import Prov, params_of, field_names
 from props import codec
 
@@ -128,6 +129,8 @@ def run(ck, prog, ctx):
                 ck.ob("ORDER", "decoder/" + kind, False, "%s: decode (%d) / propagate (%d) / insert (%d) steps incomplete" % (nm, len(decs), len(links), len(inserts)), where=db.where())
             else:
                 ck.ob("ORDER", "decoder/" + kind, okk, "%s decodes, propagates and stores %s records%s" % (nm, kind, "" if okk else ": " + "; ".join(why)), where=db.where())
+
+    check_complete_iteration(ck, "ORDER", prog, [codec.ONT + "as_bytes", "term::internal::HpoTermInternal::parents_as_byte", "term::group::HpoGroup::as_bytes", "ontology::builder::Builder::<ontology::builder::AllTerms>::add_parent_from_bytes", "ontology::builder::Builder::<ontology::builder::LooseCollection>::add_terms_from_bytes"], "the records of a section")
 
     # ------------------------------------------------------------------ COVER
     n_rec = 0
